@@ -13,7 +13,7 @@ from harness.drivers import to_wide
 from harness.pool import Pool
 
 OPS = ["-", "~", "*", "+", "<<", ">>", "&", "|"]
-DIRECTIVE_CTXS = ["dl", "sym", "assign", "macro", "macro2", "if"]
+DIRECTIVE_CTXS = ["dl", "sym", "assign", "macro", "macro2", "deep", "if"]
 ENV = {"x": 5, "_u": 5, "Xy_1": 5}
 IDNAMES = ["x", "_u", "Xy_1"]
 
